@@ -1114,7 +1114,8 @@ static void script_hook_entry(struct mcount_thread_data *mtdp, struct mcount_ret
 	struct uftrace_symbol *sym = find_symtabs(&mcount_sym_info, entry_addr);
 	char *symname = symbol_getname(sym, entry_addr);
 
-	if (script_save_context(&sc_ctx, mtdp, rstack, symname, tr->flags & TRIGGER_FL_ARGUMENT,
+	/* the arguments are in the buffer only if save_argument() put them there */
+	if (script_save_context(&sc_ctx, mtdp, rstack, symname, rstack->flags & MCOUNT_FL_ARGUMENT,
 				tr->pargs) < 0)
 		goto skip;
 
@@ -1288,6 +1289,7 @@ void mcount_exit_filter_record(struct mcount_thread_data *mtdp, struct mcount_re
 			       long *retval)
 {
 	uint64_t time_filter = mtdp->filter.time;
+	bool retval_saved = false;
 
 	if (time_filter == FILTER_NO_TIME)
 		time_filter = mcount_threshold;
@@ -1348,6 +1350,7 @@ void mcount_exit_filter_record(struct mcount_thread_data *mtdp, struct mcount_re
 		    rstack->flags & (MCOUNT_FL_WRITTEN | MCOUNT_FL_TRACE)) {
 			if (record_trace_data(mtdp, rstack, retval) < 0)
 				pr_err("error during record");
+			retval_saved = true;
 		}
 		else if (mtdp->nr_events) {
 			bool flush = false;
@@ -1366,15 +1369,25 @@ void mcount_exit_filter_record(struct mcount_thread_data *mtdp, struct mcount_re
 					k = i + 1;
 			}
 
-			if (flush)
+			if (flush) {
 				record_trace_data(mtdp, rstack, retval);
+				retval_saved = true;
+			}
 			else
 				mtdp->nr_events = k; /* invalidate sync events */
 		}
 
 		/* script hooking for function exit (only if its entry was passed too) */
-		if (SCRIPT_ENABLED && script_str && !(rstack->flags & MCOUNT_FL_DISABLED))
+		if (SCRIPT_ENABLED && script_str && !(rstack->flags & MCOUNT_FL_DISABLED)) {
+			/*
+			 * The return value is saved together with the exit record:
+			 * without a record (time filter) the buffer still holds the
+			 * arguments.
+			 */
+			if (retval && !retval_saved)
+				save_retval(mtdp, rstack, retval);
 			script_hook_exit(mtdp, rstack);
+		}
 	}
 }
 
